@@ -413,6 +413,61 @@ Proof.
   rewrite A, (B c). unfold comment_spec, len_spec. rewrite L. auto.
 Qed.
 
+(* ------------------------------------------------------------------ transactions *)
+Definition TInv (ts : tstate) : Prop := Inv (cur ts) /\ (forall s, saved ts = Some s -> Inv s).
+
+Lemma tinv_init : TInv tinit.
+Proof. split; [exact inv_init|discriminate]. Qed.
+
+Lemma tinv_step ts o : TInv ts -> tdom_at ts o = true -> TInv (tstep ts o).
+Proof.
+  intros [I S] D. destruct o as [o| | |]; cbn in *.
+  - split; [apply inv_step; assumption|exact S].
+  - destruct (saved ts) eqn:E; [discriminate|]. split; [exact I|]. cbn. intros s H. injection H as <-. exact I.
+  - split; [exact I|discriminate].
+  - destruct (saved ts) as [s|] eqn:E; [|split; [exact I|rewrite E; exact S]].
+    split; [apply S; reflexivity|discriminate].
+Qed.
+
+Lemma tinv_from h : forall ts, TInv ts -> tdom_from ts h = true -> TInv (fold_left tstep h ts).
+Proof.
+  induction h as [|o h IH]; intros ts I D; cbn; [exact I|].
+  cbn in D. apply andb_true_iff in D. destruct D as [D1 D2]. apply IH; [apply tinv_step; assumption|exact D2].
+Qed.
+
+(* the same statement over histories with BEGIN / COMMIT / ROLLBACK anywhere (no BEGIN inside a transaction) *)
+Theorem metadata_exact_tx_partial_l : forall h, tdom h = true -> forall k, length k = 3%nat ->
+  comment_fake (cur (trun h)) k = comment_spec (cur (trun h)) k /\
+  (forall c, len_fake (cur (trun h)) k c = len_spec (cur (trun h)) k c) /\
+  describe_fake (cur (trun h)) k = describe_spec (cur (trun h)) k.
+Proof.
+  intros h D k Hk. destruct (tinv_from h tinit tinv_init D) as [[I1 I2] _]. fold (trun h) in *.
+  split; [apply I1; exact Hk|]. split; [intros c; apply I2; exact Hk|].
+  unfold describe_fake, describe_spec. destruct (lookup (live (cur (trun h))) k); [|reflexivity]. cbn.
+  f_equal. apply describe_with_ext. intros c. apply I2. exact Hk.
+Qed.
+
+(* ROLLBACK restores exactly the state at BEGIN - declarations and side tables alike *)
+Lemma tx_rollback_restores_l : forall ts body, saved ts = None ->
+  cur (tstep (fold_left tstep (map Stmt body) (tstep ts TBegin)) TRollback) = cur ts.
+Proof.
+  intros ts body Hs. cbn. rewrite Hs.
+  assert (G : forall b t s0, saved t = Some s0 -> saved (fold_left tstep (map Stmt b) t) = Some s0).
+  { induction b as [|o b IH]; intros t s0 H; cbn; [exact H|]. apply IH. cbn. exact H. }
+  rewrite (G body _ (cur ts)) by reflexivity. reflexivity.
+Qed.
+
+(* histories without transaction statements are the plain model *)
+Lemma trun_embed_l : forall h, cur (trun (map Stmt h)) = run h /\ tdom (map Stmt h) = dom h.
+Proof.
+  intros h. unfold trun, run, tdom, dom.
+  assert (G : forall h ts, saved ts = None -> cur (fold_left tstep (map Stmt h) ts) = fold_left step h (cur ts) /\
+                                  tdom_from ts (map Stmt h) = dom_from (cur ts) h).
+  { induction h0 as [|o h0 IH]; intros ts Hs; cbn; [split; reflexivity|].
+    destruct (IH {| cur := step (cur ts) o; saved := saved ts |} Hs) as [A B]. cbn in A, B. rewrite A, B. split; reflexivity. }
+  apply (G h tinit). reflexivity.
+Qed.
+
 (* ------------------------------------------------------------------ outside dom the statement is false *)
 Definition K (t : String.string) : key := [lit "DB1"; lit "S1"; lit t].
 Arguments K t%string_scope.
@@ -444,6 +499,12 @@ Definition ex_h : list op :=
    AddColumn (K "T1") (ic "D");
    RenameTable (K "T1") (K "T2");
    Create false (K "T1") [vc "E" None] None].
+(* the same history inside transactions: the re-creation is rolled back, later work committed *)
+Definition ex_th : list top :=
+  map Stmt (firstn 2 ex_h) ++ [TBegin] ++ map Stmt (firstn 2 (skipn 2 ex_h)) ++ [TRollback; TBegin] ++ map Stmt (skipn 2 ex_h) ++ [TCommit; TBegin; Stmt (Drop (K "T2")); TRollback].
+Lemma meta_tx_nonvacuous_l : tdom ex_th = true /\ cur (trun ex_th) = run ex_h.
+Proof. vm_compute. split; reflexivity. Qed.
+
 Lemma meta_nonvacuous_l : dom ex_h = true /\
   comment_fake (run ex_h) (K "T2") = Some (lit "last") /\
   describe_fake (run ex_h) (K "T2") = Some [(lit "E", inl 3); (lit "D", inr 1)] /\
